@@ -95,6 +95,19 @@ func (C14) Gen(t *tape.Tape, tier string) any {
 	if t.Chance(1, 3) {
 		gen.GenBloom(t, gen.ShapeByName(sc.Plan.Shape), &sc.Plan.W)
 	}
+	if sc.Mode == "source" && t.Chance(1, 6) {
+		// the bloom filters as the source under faults: lazily read filters of a
+		// file with several row groups, looked up through a multi row group view
+		sc.ReadPath = "bloom"
+		if len(sc.Plan.W.Bloom) == 0 {
+			gen.GenBloom(t, gen.ShapeByName(sc.Plan.Shape), &sc.Plan.W)
+		}
+		sc.Plan.W.BloomGzip = false
+		sc.F.PrefetchBloom, sc.F.SkipBloomFilters = false, false
+		if sc.Plan.W.MaxRowsPerGroup == 0 || sc.Plan.W.MaxRowsPerGroup > int64(sc.Plan.NRows/2) {
+			sc.Plan.W.MaxRowsPerGroup = int64(max(1, sc.Plan.NRows/3))
+		}
+	}
 	// asynchronous read mode runs under the E3 scheduler (real goroutine
 	// parallelism would make the faulted call index unrepeatable): the page
 	// goroutines park at every ReadAt and a seeded scheduler picks who proceeds
@@ -102,7 +115,7 @@ func (C14) Gen(t *tape.Tape, tier string) any {
 		sc.F.Async = true
 		sc.F.Optimistic = false
 		sc.SchedSeed = t.Seed()
-		if sc.ReadPath == "pages" {
+		if sc.ReadPath == "pages" || sc.ReadPath == "bloom" {
 			sc.ReadPath = "rowgroups"
 		}
 	}
